@@ -88,6 +88,7 @@ def run(chk):
         if c["m"] == 4 and c["l"] <= 2:
             extra.append(dict(c, hasher="nohash", elems="small", name=c["name"] + "+nohash-small"))
             extra.append(dict(c, hasher="ident", elems="small", name=c["name"] + "+ident-small"))
+            extra.append(dict(c, hasher="nohash32", elems="paired32", name=c["name"] + "+nohash32-pairs"))
     cells += extra
     chk.cov["cells"] = len(cells)
     # oracle: harness enumeration, cross-checked against TLC's evaluation of the TLA+ definition on small cells
